@@ -240,7 +240,7 @@ fn admitted2(text: &str, kind: &str) -> Result<bool, String> {
 
 // ---------------------------------------------------------------------------------------------
 
-enum Class {
+pub enum Class {
     Ok(String),
     Reject(String),
     ConfigReject(String),
@@ -261,7 +261,7 @@ const CONFIG_REJECTIONS: &[&str] = &[
     "`then` handler should be only provided for `join!` but not for `try` `join!`",
     "futures_crate_path should be only provided for `async` `join!`",
 ];
-fn expand(text: &str, cfg: &str) -> Class {
+pub fn expand(text: &str, cfg: &str) -> Class {
     let parsed = catch_unwind(AssertUnwindSafe(|| syn::parse_str::<JoinInputDefault>(text)));
     let j = match parsed {
         Err(e) => return Class::Panic(format!("parser: {}", panic_text(e))),
@@ -306,7 +306,7 @@ fn is_member_access(operand: &str) -> bool {
 }
 
 /// Are all `..`/`>.` operands of the parsed input syntactically member accesses?
-fn dots_are_members(text: &str) -> bool {
+pub fn dots_are_members(text: &str) -> bool {
     match catch_unwind(AssertUnwindSafe(|| syn::parse_str::<JoinInputDefault>(text))) {
         Ok(Ok(j)) => j.branches.iter().all(|b| {
             b.members().iter().all(|m| match m.expr() {
@@ -360,7 +360,8 @@ fn read_cases(path: &str) -> Vec<Vec<String>> {
     std::fs::read_to_string(path).expect("read cases").lines().filter(|l| !l.is_empty()).map(|l| l.split('\t').map(unesc).collect()).collect()
 }
 
-fn main() {
+#[allow(dead_code)]
+pub fn main() {
     std::panic::set_hook(Box::new(|_| {}));
     let args: Vec<String> = std::env::args().collect();
     let mode = args.get(1).map(|s| s.as_str()).unwrap_or("");
